@@ -33,7 +33,9 @@ from runner import Infra, unjson
 RULE = ('case = (items 0-6, tasks 1-3, initial concurrency 0-3, source raises?, action list); the action list is '
         'drawn step by step from the actions enabled on the real pipeline (P, M, G, T<i>, X<i>) plus stop()/'
         'concurrency=n injections, under several scheduling policies (uniform, producer-first, workers-first, '
-        'main-last, tasks-late); thorough adds the exhaustive enumeration of every schedule of small scopes with '
+        'main-last, tasks-late); directed pause scenarios (concurrency >= 2, >= 2 items in flight, concurrency = 0 mid-run, the '
+        'in-flight items then finish / raise in every order, followed by a resume, a stop, or nothing); every point at which '
+        'the loop runs dry with process() pending is judged (a failure must have surfaced there, paused or not); thorough adds the exhaustive enumeration of every schedule of small scopes with '
         'one injection at every position.  non-trivial = at least one item was taken from the source; distinct by '
         '(parameters, action list)')
 TRUSTED = ['harness/sched.py DetLoop (one handle per iteration, pure-Python tasks)',
@@ -269,6 +271,12 @@ class Real:
         self._settle()
         return True
 
+    def holder_last(self, a):
+        """Will completing action T<i> finish item i (its last task)?"""
+        i = int(a[1:])
+        started = [t for (t, j, se) in self.log if j == i and se == 's']
+        return bool(started) and started[-1] == self.k - 1
+
     # --- observation
     def main_status(self):
         if not self.main.done():
@@ -299,7 +307,7 @@ class Real:
         return st + ';' + self.main_status() + ';' + ''.join(self.enabled())
 
 
-def run_real(n, k, conc, src_fail, policy_or_actions, rng=None, inj=None, cont=None, picker=None):
+def run_real(n, k, conc, src_fail, policy_or_actions, rng=None, inj=None, cont=None, picker=None, cont_inj=None):
     """Run the real pipeline.  `policy_or_actions` is either a list of actions (replay) or a policy name;
     returns dict(actions, steps=[(events, digest)], …)."""
     real = Real(n, k, conc, src_fail)
@@ -310,6 +318,7 @@ def run_real(n, k, conc, src_fail, policy_or_actions, rng=None, inj=None, cont=N
     inj = dict(inj or {})
     n_inj = 0
     bad = None
+    qpoints = []
     try:
         for step_no in range(MAX_ACTIONS):
             if real.main.done():
@@ -323,7 +332,7 @@ def run_real(n, k, conc, src_fail, policy_or_actions, rng=None, inj=None, cont=N
                     break
                 a = fixed[step_no]
             elif fixed is not None:
-                a = choose_action(real, cont, rng, step_no, {}, 0)
+                a = choose_action(real, cont, rng, step_no, cont_inj or {}, 0)
                 if a is None:
                     break
             else:
@@ -345,8 +354,14 @@ def run_real(n, k, conc, src_fail, policy_or_actions, rng=None, inj=None, cont=N
             actions.append(a)
             evs = '.'.join('%d%s%d' % (t, se, i) for (t, i, se) in real.log[mark:])
             steps.append(evs + ';' + real.digest())
+            if not real.main.done() and not real.enabled():
+                # the loop is dry with process() pending: judged by the oracle whether or not the run goes on
+                qpoints.append({'at': len(actions), 'state': real.pipeline._state.value,
+                                'conc': real.pipeline._concurrency, 'task_raised': real.task_raised,
+                                'src_raised': real.src_raised})
         p = real.pipeline
         res = {
+            'qpoints': qpoints,
             'actions': actions, 'steps': steps, 'bad': bad,
             'main': 'b' if bad == 'busy-loop' else real.main_status(),
             'enabled': [] if bad == 'busy-loop' else real.enabled(),
@@ -423,14 +438,27 @@ def oracle(ctx, case, res):
     if res['bad'] == 'busy-loop':
         hang = 'process() spins in `while running: event.wait()` without ever yielding (event loop frozen)'
     elif res['main'] == 'p' and not res['enabled'] and not res.get('cut'):
-        paused = res['state'] == 'running' and res['conc'] == 0
+        paused = res['state'] == 'running' and res['conc'] == 0 and not (res['src_raised'] or res['task_raised'] > 0)
         if not paused:
             hang = ('the loop ran dry with process() pending: state=%s concurrency=%d, %d of %d items complete'
                     % (res['state'], res['conc'], len(complete), n))
     failure = res['src_raised'] or res['task_raised'] > 0
+    unsurfaced = False
+    if not hang:
+        for q in res.get('qpoints', []):
+            if q['task_raised'] or q['src_raised']:
+                # a task / the source has raised, nothing can move any more and process() has not raised:
+                # the failure did not surface (a pause - running with concurrency 0 - is no excuse: nothing
+                # guarantees a later resume)
+                hang = ('after action %d the loop is dry with process() pending although a task or the source has '
+                        'raised (state=%s concurrency=%d): the failure is not surfaced' % (q['at'], q['state'], q['conc']))
+                unsurfaced = True
+                break
     if hang:
         if res['bad'] == 'busy-loop':
             kind, where = 'hang', 'pause-at-start'
+        elif unsurfaced:
+            kind, where = 'hang', 'failure'
         elif res['stop_called']:
             kind, where = 'hang', 'stop'
         elif failure:
@@ -538,6 +566,75 @@ def gen_random(ctx, rng, count):
     return out
 
 
+PAUSE_VARIANTS = ['finish-then-fail', 'fail-then-finish', 'fail-all', 'fail-then-resume', 'finish-fail-resume',
+                  'pause-resume', 'pause-resume-twice', 'fail-then-stop']
+
+
+def gen_pause_failure(ctx, rng, count):
+    """Pause scenarios: concurrency >= 2, >= 2 items in flight, `concurrency = 0` mid-run, then in-flight items
+    finishing / raising in every order, with or without a later resume or stop."""
+    out = []
+    for ix in range(count):
+        variant = PAUSE_VARIANTS[ix % len(PAUSE_VARIANTS)]
+        n = rng.choice([2, 2, 3, 4, 5])
+        k = rng.choice([1, 1, 2, 3])
+        conc = rng.choice([2, 2, 3])
+        want = min(n, conc, rng.choice([2, 2, 3]))
+        st = {'phase': 0, 'tdone': 0, 'failed': 0, 'resumed': 0, 'wait': rng.choice([0, 0, 1, 3])}
+
+        def picker(real, actions, st=st, variant=variant, want=want):
+            en = real.enabled()
+            tasks = [a for a in en if a[0] == 'T']
+            others = [a for a in en if a[0] != 'T']
+            if st['phase'] == 0:
+                if len(tasks) >= want and st['wait'] <= 0:
+                    st['phase'] = 1
+                    return 'C0'
+                if len(tasks) >= want:
+                    st['wait'] -= 1
+                if others and (len(tasks) < want or rng.random() < 0.7):
+                    return rng.choice(others)
+                if en:
+                    return rng.choice(en)
+                return None
+            # paused (or resumed)
+            if not en:
+                if real.main.done():
+                    return None
+                if variant in ('fail-then-resume', 'finish-fail-resume', 'pause-resume') and st['resumed'] < 1:
+                    st['resumed'] += 1
+                    return rng.choice(['C1', 'C2', 'C3'])
+                if variant == 'pause-resume-twice' and st['resumed'] < 3:
+                    st['resumed'] += 1
+                    return 'C0' if st['resumed'] == 2 else rng.choice(['C1', 'C2'])
+                if variant == 'fail-then-stop' and st['resumed'] < 1:
+                    st['resumed'] += 1
+                    return 'S'
+                return None
+            a = rng.choice(en if rng.random() < 0.5 or not tasks else tasks)
+            if a[0] != 'T':
+                return a
+            # a task completes: normally or by raising, as the variant says
+            fail = False
+            if variant in ('finish-then-fail', 'finish-fail-resume'):
+                fail = st['tdone'] >= 1 and st['failed'] == 0 and real.holder_last(a)
+            elif variant in ('fail-then-finish', 'fail-then-resume', 'fail-then-stop'):
+                fail = st['failed'] == 0
+            elif variant == 'fail-all':
+                fail = True
+            if fail:
+                st['failed'] += 1
+                return 'X' + a[1:]
+            if real.holder_last(a):
+                st['tdone'] += 1
+            return a
+        case = {'n': n, 'k': k, 'conc': conc, 'src_fail': False}
+        res = run_real(n, k, conc, False, [], picker=picker)
+        res['variant'] = variant
+        out.append((case, res))
+    return out
+
+
 def enumerate_scope(ctx, n, k, conc, src_fail, inject, limit):
     """Every schedule (DFS over the enabled actions of the real side) with the injection `inject`
     ('S', 'C0', 'C2', 'X', None) made at every position.  One real run per leaf: a run replays a stored
@@ -551,16 +648,21 @@ def enumerate_scope(ctx, n, k, conc, src_fail, inject, limit):
         en = real.enabled()
         if not en:
             p = real.pipeline
-            if p._state.value == 'running' and p._concurrency == 0 and len(actions) < 60 and actions[-1:] != ['C1']:
-                return [('C1', injected)]          # end the pause, continue
+            if p._state.value == 'running' and p._concurrency == 0 and len(actions) < 60 and actions[-1:] != ['C1'] \
+                    and not real.main.done():
+                return [('C1', injected)]          # end the pause, continue (the paused point itself is judged too)
             return []
         opts = []
         for a in en:
             opts.append((a, injected))
             if inject == 'X' and not injected and a[0] == 'T':
                 opts.append(('X' + a[1:], True))
+            if inject == 'C0+X' and injected == 1 and a[0] == 'T':
+                opts.append(('X' + a[1:], 2))
         if inject in ('S', 'C0', 'C1', 'C2') and not injected and actions:
             opts.append((inject, True))
+        if inject == 'C0+X' and not injected and actions:
+            opts.append(('C0', 1))
         return opts
 
     while stack and len(out) < limit:
@@ -674,7 +776,8 @@ def replay(ctx, case, kind=None, where=None):
     base = {kk: case[kk] for kk in ('n', 'k', 'conc', 'src_fail')}
     import random
     res = run_real(case['n'], case['k'], case['conc'], case['src_fail'], list(case['actions']),
-                   rng=random.Random(case.get('then_seed', 0)), cont=case.get('then'))
+                   rng=random.Random(case.get('then_seed', 0)), cont=case.get('then'),
+                   cont_inj={'unpause': False} if case.get('no_resume') else None)
     check_cases(ctx, [(base, res)], tags=['replay'])
 
 
@@ -687,15 +790,33 @@ def run(ctx):
     check_cases(ctx, batch)
     for c, r in batch[:3]:
         ctx.sample(dict(c, actions=r['actions'], end=r['main']))
+    # pause scenarios (concurrency 0 with items in flight; failures while paused; resume / stop / neither)
+    pf = gen_pause_failure(ctx, ctx.subrng('pause'), ctx.scale(800, 8000))
+    check_cases(ctx, pf, tags=['pause-scenario'])
+    for v in PAUSE_VARIANTS:
+        ctx.tag('pause:' + v, len([1 for c, r in pf if r.get('variant') == v]))
+    def failed_while_paused(acts):
+        paused = False
+        for a in acts:
+            if a[0] == 'C':
+                paused = a == 'C0'
+            elif a == 'S':
+                paused = False
+            elif a[0] == 'X' and paused:
+                return True
+        return False
+    ctx.tag('pause:task-raised-while-paused', len([1 for c, r in pf if failed_while_paused(r['actions'])]))
+    ctx.tag('pause:ended-paused-without-resume',
+            len([1 for c, r in pf if r['main'] == 'p' and not r['enabled']]))
     free_run(ctx, ctx.subrng('free'), ctx.scale(2000, 15000))
     # exhaustive small scopes: every schedule, one injection at every position
     if not thorough:
-        scopes = [(1, 1, 1), (2, 1, 1), (1, 2, 2)]
-        injections = [None, 'S']
+        scopes = [(1, 1, 1), (2, 1, 1), (1, 2, 2), (2, 1, 2)]
+        injections = [None, 'S', 'C0+X']
     else:
         scopes = [(0, 1, 1), (1, 1, 0), (1, 1, 1), (1, 2, 1), (2, 1, 1), (1, 1, 2), (2, 1, 2), (1, 2, 2), (3, 1, 1),
                   (2, 2, 1), (3, 1, 2), (2, 2, 2)]
-        injections = [None, 'S', 'C0', 'C2', 'X']
+        injections = [None, 'S', 'C0', 'C2', 'X', 'C0+X']
     report = []
     total = 0
     for (n, k, c) in scopes:
@@ -715,4 +836,5 @@ def run(ctx):
 def search(ctx):
     rng = ctx.subrng('search')
     check_cases(ctx, gen_random(ctx, rng, ctx.scale(300, 1000)))
+    check_cases(ctx, gen_pause_failure(ctx, rng, ctx.scale(100, 300)), tags=['pause-scenario'])
     free_run(ctx, rng, ctx.scale(100, 300))
